@@ -164,15 +164,23 @@ def gen_case(rng, cfg, kind):
 
 
 def pl_interp(xs, Y, q):
-    """clamped piecewise-linear interpolation through knots xs (non-decreasing) with values Y[k, :] at q
-    (same conventions as RexModel.Lib.LinearDelay.interp1)."""
+    """clamped piecewise-linear interpolation through knots xs (non-decreasing) with values Y[k, :] at q.
+    Same function as RexModel.Lib.LinearDelay.interp1; only AT a duplicated abscissa carrying two payloads (where the
+    mathematical function is not defined) it follows jnp.interp's convention (the segment right of the query, the last
+    pair if there is none) instead of interp1's (first duplicate)."""
     n = len(xs)
-    for k in range(n - 1):
-        if q <= xs[k]:
-            return Y[k].copy()
-        if q < xs[k + 1]:
-            return Y[k] + (q - xs[k]) * ((Y[k + 1] - Y[k]) / (xs[k + 1] - xs[k]))
-    return Y[n - 1].copy()
+    if n == 1 or q < xs[0]:
+        return Y[0].copy()
+    if q > xs[n - 1]:
+        return Y[n - 1].copy()
+    i = 0
+    while i < n and xs[i] <= q:  # searchsorted(xs, q, side="right")
+        i += 1
+    i = min(max(i, 1), n - 1)
+    dx = xs[i] - xs[i - 1]
+    if abs(dx) <= 1e-300:
+        return Y[i - 1].copy()
+    return Y[i - 1] + ((q - xs[i - 1]) / dx) * (Y[i] - Y[i - 1])
 
 
 def oracle(variant, seq, sent, recv_in, d, ts, window, Y):
@@ -474,7 +482,13 @@ def check_case(im, case, out):
         except Exception as ex:
             fail("exception", f"apply_delay raised at alpha+{da}: {type(ex).__name__}: {str(ex)[:200]}")
     # ---- exact tie: the delayed arrival coincides with a message -> the newest entry IS that message = zero-order hold
-    dup_knot = any(abs(kx[k + 1] - kx[k]) < 1e-12 and abs(kx[k] - ts) < 1e-12 and float(abs(ky[k + 1] - ky[k])) > 0 for k in range(len(kx) - 1))
+    def _on_dup(q):
+        return q is not None and any(abs(kx[k + 1] - kx[k]) < 1e-12 and abs(kx[k] - q) < 1e-12 and float(abs(ky[k + 1] - ky[k])) > 0 for k in range(len(kx) - 1))
+
+    dup_knot = _on_dup(ts)
+    dup_query = any(_on_dup(q) for q in info["queries"])
+    if dup_query:
+        count("query_on_duplicated_knot(Lean model not compared)")
     if exact and dup_knot:
         # a real message whose delayed arrival is exactly 0.0 = the timestamp of the dummies: duplicated abscissa with two payloads
         # (outside the hypothesis of interp_knot; "linear" shows the dummy there, zero-order hold the message)
@@ -499,10 +513,11 @@ def check_case(im, case, out):
         except Exception as ex:
             fail("exception", f"zoh apply_delay raised {type(ex).__name__}: {str(ex)[:200]}")
     # ---- material for the Lean-model correspondence (leaf x)
-    out["driver"].append(dict(
-        cmd=dict(interp=VARIANT_CODE[variant], d=d, ts=ts, window=window, seq=seq, sent=sent, recv=recv_in, ys=[float(v) for v in Yx]),
-        impl=[float(v) for v in onp.asarray(res["data"]["x"]).astype(onp.float64)], in_range=bool(info["in_range"]), tie_zone=bool(in_tie_zone), idx_max=int(info["idx_max"]),
-        tol=2e-4 * max(1.0, float(onp.max(onp.abs(Yx)))) + info["L"] * t_err, desc=desc0, known_row=False))
+    if not dup_query:
+        out["driver"].append(dict(
+            cmd=dict(interp=VARIANT_CODE[variant], d=d, ts=ts, window=window, seq=seq, sent=sent, recv=recv_in, ys=[float(v) for v in Yx]),
+            impl=[float(v) for v in onp.asarray(res["data"]["x"]).astype(onp.float64)], in_range=bool(info["in_range"]), tie_zone=bool(in_tie_zone),
+            idx_max=int(info["idx_max"]), tol=2e-4 * max(1.0, float(onp.max(onp.abs(Yx)))) + info["L"] * t_err, desc=desc0))
     if len(out["samples"]) < 2:
         out["samples"].append(dict(config=dict(variant=variant, rate=rate, min=cfg["dmin"], max=cfg["dmax"], window=window), delay=d, ts_start=ts, seq=seq,
                                    ts_sent=sent, x=[float(v) for v in Yx], seen_x=[float(v) for v in onp.asarray(res["data"]["x"])], expected_x=[float(v) for v in oracle(variant, seq, sent, recv_in, d, ts, window, Yx.reshape(cum, 1))[0][:, 0]]))
